@@ -397,6 +397,66 @@ def runs_only_when(cfg, n, atom: str, value: bool) -> bool:
     return False
 
 
+def truth_table(fn: ast.AST, atoms: list[str]):
+    """The boolean function a small function body computes, as a table over
+    the given atom expressions (matched by source text): statements may be
+    if / return / pass / docstring, values are and / or / not / True / False
+    / atoms.  None when something else occurs.  (Enumeration of a finite
+    boolean function over syntactic atoms: a truth table, not an execution
+    of the program.)"""
+    import itertools
+
+    class Unknown(Exception):
+        pass
+
+    def ev(e, env):
+        t = txt(e)
+        if t in env:
+            return env[t]
+        if isinstance(e, ast.Constant) and isinstance(e.value, bool):
+            return e.value
+        if isinstance(e, ast.UnaryOp) and isinstance(e.op, ast.Not):
+            return not ev(e.operand, env)
+        if isinstance(e, ast.BoolOp):
+            vals = [ev(v, env) for v in e.values]
+            return all(vals) if isinstance(e.op, ast.And) else any(vals)
+        if isinstance(e, ast.IfExp):
+            return ev(e.body, env) if ev(e.test, env) else ev(e.orelse, env)
+        if isinstance(e, ast.Call) and isinstance(e.func, ast.Name) and \
+                e.func.id == 'bool' and len(e.args) == 1:
+            return ev(e.args[0], env)
+        raise Unknown(t)
+
+    def run(stmts, env):
+        for s in stmts:
+            if isinstance(s, ast.Expr) and isinstance(s.value, ast.Constant):
+                continue
+            if isinstance(s, ast.Pass):
+                continue
+            if isinstance(s, ast.Return):
+                if s.value is None:
+                    raise Unknown('return None')
+                return ev(s.value, env)
+            if isinstance(s, ast.If):
+                r = run(s.body if ev(s.test, env) else s.orelse, env)
+                if r is not None:
+                    return r
+                continue
+            raise Unknown(txt(s))
+        return None
+    table = {}
+    try:
+        for vals in itertools.product((False, True), repeat=len(atoms)):
+            env = dict(zip(atoms, vals))
+            r = run(fn.body, env)
+            if r is None:
+                return None
+            table[vals] = r
+    except Unknown:
+        return None
+    return table
+
+
 def parents_map(root: ast.AST) -> dict[int, ast.AST]:
     pm: dict[int, ast.AST] = {}
     for n in ast.walk(root):
